@@ -36,6 +36,8 @@ pub fn alphabet(core: bool) -> Vec<(&'static str, Call)> {
         ("start_file-deflated", Call::StartFile { name: "b".into(), opts: o(8) }),
         ("start_file-bzip2", Call::StartFile { name: "c".into(), opts: o(12) }),
         ("start_file-zstd", Call::StartFile { name: "z".into(), opts: o(93) }),
+        // level 0 was documented for Bzip2 and panicked inside libbz2 (fixed: now refused); either result, never a panic
+        ("start_file-bzip2-level0", Call::StartFile { name: "c0".into(), opts: FOpts { level: Some(0), ..o(12) } }),
         ("start_file-deflated-level77", Call::StartFile { name: "d77".into(), opts: FOpts { level: Some(77), ..o(8) } }),
         ("start_file-stored-level3", Call::StartFile { name: "s3".into(), opts: FOpts { level: Some(3), ..o(0) } }),
         ("start_file-method1", Call::StartFile { name: "u1".into(), opts: o(1) }),
@@ -418,7 +420,13 @@ pub fn run(args: &Args) -> i32 {
     }
     let thorough = args.tier.thorough();
     let srcs = sources(seed);
-    let full = alphabet(false);
+    let mut full = alphabet(false);
+    if !thorough {
+        // the per-change tier drops five operations that differ from a kept one only in a parameter value
+        // (the thorough tier explores all of them)
+        let drop = ["aligned-1", "add_directory-slash", "write-zip64-record", "start_file-zstd", "raw_copy-stored"];
+        full.retain(|(n, _)| !drop.contains(n));
+    }
     let core = alphabet(true);
     let (d_full, d_core) = if thorough { (6, 9) } else { (5, 7) };
     ctx.rule = format!(
